@@ -164,7 +164,13 @@ impl HttpClient {
         let host = http_settings
             .hostname
             .map(S::into)
-            .unwrap_or_else(|| address.ip().to_string());
+            // an IPv6 address is written in brackets in a URL
+            .unwrap_or_else(|| {
+                match address.ip() {
+                    std::net::IpAddr::V6(ip) => format!("[{ip}]"),
+                    ip => ip.to_string(),
+                }
+            });
 
         Ok(Self {
             client,
